@@ -536,15 +536,52 @@ func checkScriptFetchKeyAndIndexAgree(c *Ctx, rule string) {
 		}
 		return nil, ""
 	}
+	// the fetcher, and wrappers that hand their own parameters straight on to it (a local closure that fetches and
+	// appends): callee -> positions of the record key and the index among its arguments
+	type pos struct{ key, idx int }
+	fetchers := map[*ssa.Function]pos{}
+	if f := p.Func("wtxmgr", "", "fetchRawTxRecordPkScript"); f != nil {
+		fetchers[f] = pos{0, 2}
+	}
+	for round := 0; round < 2; round++ {
+		for _, fn := range p.FuncsIn("wtxmgr") {
+			if _, done := fetchers[fn]; done {
+				continue
+			}
+			for _, ci := range callsOf(fn) {
+				call, ok := ci.(*ssa.Call)
+				if !ok {
+					continue
+				}
+				ps, isF := fetchers[call.Call.StaticCallee()]
+				if !isF || ps.key >= len(call.Call.Args) || ps.idx >= len(call.Call.Args) {
+					continue
+				}
+				kp, ok1 := stripConv(call.Call.Args[ps.key]).(*ssa.Parameter)
+				ip, ok2 := stripConv(call.Call.Args[ps.idx]).(*ssa.Parameter)
+				if ok1 && ok2 && kp.Parent() == fn && ip.Parent() == fn {
+					fetchers[fn] = pos{paramIndex(fn, kp), paramIndex(fn, ip)}
+				}
+			}
+		}
+	}
 	for _, fn := range p.FuncsIn("wtxmgr") {
-		for _, call := range callsNamed(fn, "fetchRawTxRecordPkScript") {
-			if len(call.Call.Args) != 3 {
+		if _, isWrapper := fetchers[fn]; isWrapper {
+			continue
+		}
+		for _, ci := range callsOf(fn) {
+			call, ok := ci.(*ssa.Call)
+			if !ok {
+				continue
+			}
+			ps, isF := fetchers[call.Call.StaticCallee()]
+			if !isF || ps.key >= len(call.Call.Args) || ps.idx >= len(call.Call.Args) {
 				continue
 			}
 			n++
-			ks, kk := source(call.Call.Args[0])
-			is, ik := source(call.Call.Args[2])
-			ok := ks != nil && is != nil && kk == ik && ks == is
+			ks, kk := source(call.Call.Args[ps.key])
+			is, ik := source(call.Call.Args[ps.idx])
+			ok = ks != nil && is != nil && kk == ik && ks == is
 			// a credit key that was looked up BY the outpoint (existsUnspent(ns, p)) names p's output
 			if !ok && kk == "key" && ik == "outpoint" {
 				for _, o := range (&Slicer{P: p, KeepExtract: true}).Origins(ks) {
